@@ -355,13 +355,29 @@ def r_eof_flag(ctx):
         if cb not in rn.reachable_from(rcb) and rcb in rn.reachable_from(cb):   # before the next header is read: known-size closing
             n_known += 1
             rep.instance("known-size closing: %s" % where)
-            ok = kind == "drain"
-            if ok:
+            SCAN = {"call:std::iter::Iterator::position", "call:std::iter::Iterator::enumerate", "call:std::iter::Iterator::next"}
+            if kind == "drain":
                 a1 = t["args"][1]
                 rty = (a1.get("place") or {}).get("ty") or a1.get("ty") or {}
                 ok = strip_generics(rty.get("path", "")) in ("std::ops::RangeFrom", "core::ops::RangeFrom")
-            rep.oblige(ok, "CLOSE|known|range", rn.span, "%s: exhausted known-size masters are not drained from the first exhausted one to the top of the stack" % where)
-            rep.oblige(kind == "drain" and _drain_reversed(rn, cb), "CLOSE|known|order", rn.span, "%s: exhausted known-size masters are not queued innermost first (drain(i..).rev())" % where)
+                order = _drain_reversed(rn, cb)
+            elif kind == "pop":
+                # `while stack.len() > index { pop }`: everything from the first exhausted master to the top, innermost first by construction
+                ok = False
+                for b2 in sorted(rn.live_blocks()):
+                    tt2 = rn.blocks[b2]["term"]
+                    if tt2["k"] != "switch" or tt2["discr"].get("k") not in ("copy", "move") or tt2["discr"]["place"]["proj"]:
+                        continue
+                    src = local_sources(rn, tt2["discr"]["place"]["local"])
+                    if "call:std::vec::Vec::len" in src and "field:tag_stack" in src and (src & SCAN):
+                        # the pop must sit inside the loop this comparison controls
+                        if cb in rn.reachable_from(b2) and b2 in rn.reachable_from(cb):
+                            ok = True
+                order = ok
+            else:
+                ok = order = False
+            rep.oblige(ok, "CLOSE|known|range", rn.span, "%s: exhausted known-size masters are not closed from the first exhausted one to the top of the stack" % where)
+            rep.oblige(order, "CLOSE|known|order", rn.span, "%s: exhausted known-size masters are not queued innermost first" % where)
         elif rn.edge_dominates(some_e, cb):
             n_unknown += 1
             rep.instance("unknown-size closing: %s" % where)
@@ -390,10 +406,11 @@ def r_eof_flag(ctx):
     rep.oblige(n_unknown >= 1, "CLOSE|unknown|present", rn.span, "unknown-size masters are no longer closed by the incoming element")
     rep.oblige(n_eof >= 1, "CLOSE|eof|present", rn.span, "open masters are no longer closed at end of input")
     # the known-size exhaustion test: position(|tag| Known(size) && current_offset() >= data_start + size)
-    pos = rn.calls_to("std::iter::Iterator::position")
-    rep.instance("known-size exhaustion scans: %d" % len(pos))
-    ok = len(pos) == 1 and "field:tag_stack" in local_sources(rn, pos[0][1]["args"][0]["place"]["local"])
-    rep.oblige(ok, "CLOSE|known|scan", rn.span, "the exhausted-master scan does not run position() over the whole tag_stack")
+    scans = rn.calls_to("std::iter::Iterator::position") + rn.calls_to("std::iter::Iterator::enumerate")
+    good = [x for x in scans if x[1]["args"][0].get("k") in ("copy", "move") and
+            {"field:tag_stack", "call:core::slice::iter"} <= local_sources(rn, x[1]["args"][0]["place"]["local"])]
+    rep.instance("known-size exhaustion scans over the whole stack from the bottom: %d" % len(good))
+    rep.oblige(len(good) >= 1, "CLOSE|known|scan", rn.span, "the first exhausted known-size master is not searched from the bottom of the whole tag_stack (position()/enumerate() over tag_stack.iter())")
     return rep
 
 
@@ -432,9 +449,32 @@ def r_overrun_all(ctx):
     return rep
 
 
+def _root_local(b, op, depth=4):
+    """the user-visible local an operand is a plain copy of"""
+    if op.get("k") not in ("copy", "move") or op["place"]["proj"]:
+        return None
+    l = op["place"]["local"]
+    for _ in range(depth):
+        d = _def_of(b, l)
+        if d is not None and d["rv"]["k"] == "use" and d["rv"]["op"].get("k") in ("copy", "move") and not d["rv"]["op"]["place"]["proj"]:
+            l = d["rv"]["op"]["place"]["local"]
+        else:
+            break
+    return l
+
+
+def _cmp_in_block(b, blk):
+    cmp_ = None
+    for st in b.blocks[blk]["stmts"]:
+        if st["k"] == "assign" and st["rv"]["k"] == "binop" and st["rv"]["op"] in ("Ge", "Lt", "Gt", "Le", "Eq", "Ne"):
+            cmp_ = st
+    return cmp_
+
+
 def r_buffer_progress(ctx):
-    rep = RuleReport("L-BUFFER-PROGRESS", "in buffer_master, right after the queue refill (read_next) the search position is compared with the queue "
-                     "length and the function reports EOF and returns when nothing new was queued: the search loop cannot spin")
+    rep = RuleReport("L-BUFFER-PROGRESS", "in buffer_master the queue is refilled (read_next) only when the search counter has reached the queue length, "
+                     "and right after the refill the same counter is compared with the new length: when nothing new was queued the function "
+                     "reports EOF and returns — the search loop cannot spin")
     prog = ctx.prog
     b = find_one(prog, "TagIterator::buffer_master")
     rn = b.calls_to(ITER + "::read_next")
@@ -443,9 +483,19 @@ def r_buffer_progress(ctx):
     if not ok:
         return rep
     cb = rn[0][0]
-    nxt = b.blocks[cb]["term"]["target"]
-    # follow straight-line code to the first switch
-    blk = nxt
+
+    def is_len(op):
+        # the operand is (a plain copy of) the result of emission_queue.len()
+        l = _root_local(b, op)
+        if l is None:
+            return False
+        for cbk, t, c in b.calls():
+            if c is not None and strip_generics(c["path"]) == "std::collections::VecDeque::len" and t["dest"]["local"] == l and not t["dest"]["proj"]:
+                a0 = t["args"][0]
+                return a0.get("k") in ("copy", "move") and "field:emission_queue" in local_sources(b, a0["place"]["local"])
+        return False
+    # follow straight-line code after the refill to the first switch
+    blk = b.blocks[cb]["term"]["target"]
     found = None
     for _ in range(4):
         tt = b.blocks[blk]["term"]
@@ -457,39 +507,45 @@ def r_buffer_progress(ctx):
             continue
         break
     ok = False
-    why = "no comparison of the search position with the queue length follows the refill"
+    why = "no comparison of the search counter with the queue length follows the refill"
     if found is not None:
         blk, tt = found
-        cmp_ = None
-        for st in b.blocks[blk]["stmts"]:
-            if st["k"] == "assign" and st["rv"]["k"] == "binop" and st["rv"]["op"] in ("Ge", "Lt", "Gt", "Le", "Eq", "Ne"):
-                cmp_ = st
+        cmp_ = _cmp_in_block(b, blk)
         if cmp_ is not None:
-            def role(o):
-                if o.get("k") not in ("copy", "move"):
-                    return "const"
-                l = o["place"]["local"]
-                names = {b.local_name(l)}
-                d = _def_of(b, l)
-                if d is not None and d["rv"]["k"] == "use" and d["rv"]["op"].get("k") in ("copy", "move"):
-                    names.add(b.local_name(d["rv"]["op"]["place"]["local"]))
-                if "position" in names:
-                    return "position"
-                named = sorted(x for x in names if x)
-                if named:
-                    return named[0]
-                if "call:std::collections::VecDeque::len" in local_sources(b, l):
-                    return "len"
-                return "?"
-            ra, rb = role(cmp_["rv"]["a"]), role(cmp_["rv"]["b"])
+            A, B = cmp_["rv"]["a"], cmp_["rv"]["b"]
             op = cmp_["rv"]["op"]
-            # which outcome (1 = comparison true) is taken when position == len, and is exactly 'no new item'
-            exit_when = {("position", "len"): {"Ge": 1, "Lt": 0, "Eq": 1, "Ne": 0}, ("len", "position"): {"Le": 1, "Gt": 0, "Eq": 1, "Ne": 0}}.get((ra, rb), {}).get(op)
-            why = "after the refill the code tests `%s %s %s`, which does not single out 'no new item was queued' (position >= queue length)" % (ra, op, rb)
-            if exit_when is not None:
+            if is_len(B) and not is_len(A):
+                counter, form = _root_local(b, A), ("counter", "len")
+            elif is_len(A) and not is_len(B):
+                counter, form = _root_local(b, B), ("len", "counter")
+            else:
+                counter, form = None, None
+            nm = lambda l: (b.local_name(l) or "_%d" % l) if l is not None else "?"
+            why = "after the refill the code tests `%s %s %s`, which does not compare a search counter with the new queue length" % (
+                "len" if is_len(A) else nm(_root_local(b, A)), op, "len" if is_len(B) else nm(_root_local(b, B)))
+            # the counter must be the one whose reaching the length triggered the refill
+            guard_ok = False
+            if counter is not None:
+                for g in sorted(b.live_blocks()):
+                    gt = b.blocks[g]["term"]
+                    if gt["k"] != "switch":
+                        continue
+                    gc = _cmp_in_block(b, g)
+                    if gc is None:
+                        continue
+                    ga, gb_ = gc["rv"]["a"], gc["rv"]["b"]
+                    roots = {_root_local(b, ga), _root_local(b, gb_)}
+                    if counter in roots and (is_len(ga) or is_len(gb_)) and any(b.edge_dominates((g, tg), cb) for _, tg in list(gt["targets"]) + [(None, gt["otherwise"])]):
+                        guard_ok = True
+                if not guard_ok:
+                    why = "the refill is not guarded by a comparison of the same counter (%s) with the queue length" % nm(counter)
+            exit_when = {("counter", "len"): {"Ge": 1, "Lt": 0, "Eq": 1, "Ne": 0}, ("len", "counter"): {"Le": 1, "Gt": 0, "Eq": 1, "Ne": 0}}.get(form, {}).get(op)
+            if guard_ok and exit_when is None:
+                why = "after the refill the code tests `%s %s %s`, which is not taken exactly when nothing new was queued (counter >= length)" % (form[0], op, form[1])
+            if guard_ok and exit_when is not None:
                 tgt = next((tg for v, tg in tt["targets"] if v == 0), None) if exit_when == 0 else \
                     (tt["otherwise"] if all(v == 0 for v, _ in tt["targets"]) else next((tg for v, tg in tt["targets"] if v == 1), None))
-                why = "the 'no new item' outcome does not leave the search loop"
+                why = "the 'nothing new' outcome does not leave the search loop"
                 if tgt is not None:
                     reach = b.reachable_from(tgt)
                     if cb not in reach and any(b.blocks[r]["term"]["k"] == "return" for r in reach):
@@ -876,7 +932,7 @@ def _tile_run(prog, entry_variant, entry="read_tag"):
         always.append(PVH)
     eng = absrun.make_engine(prog, no_inline=["spec_util::validate_tag_path", "tools::arr_to_u64", "tools::arr_to_i64", "tools::arr_to_f64"],
                              post_assume={ITER + "::current_offset": it._pa_offset}, eof_partition=False,
-                             summaries=summ, always_summarize=always)
+                             summaries=summ, always_summarize=always, keep_dead_locals=(entry == "try_recover"))
     eng.models = dict(eng.models)
     eng.models["tools::read_vint"] = model_read_vint
     out = {"checks": [], "entry": entry_variant}
@@ -992,49 +1048,6 @@ def _tile_run(prog, entry_variant, entry="read_tag"):
                 check("a payload that is cut short does not move the cursor", "read_tag_data Ok(None) exit", ok)
 
     def on_aggregate(st=None, frame=None, rv=None, span=None, **kw):
-        if entry == "try_recover" and rv.get("agg") == "adt" and strip_generics(rv["path"]).endswith("EBMLSize") and rv.get("variant") == "Known" \
-                and frame.body.path == ITER + "::try_recover":
-            # Known(size + diff): one addend must be the distance the cursor moved since try_recover was entered
-            b = frame.body
-            op = rv["ops"][0]
-            addends = []
-            for _ in range(4):
-                if op.get("k") not in ("copy", "move"):
-                    break
-                d = _def_of(b, op["place"]["local"])
-                if d is None:
-                    # `&usize + usize` is a call of <&usize as Add<usize>>::add
-                    for cb, t, c in b.calls():
-                        if t["dest"]["local"] == op["place"]["local"] and not t["dest"]["proj"] and c is not None and strip_generics(c["path"]) == "std::ops::Add::add":
-                            addends = list(t["args"])
-                    break
-                if d["rv"]["k"] == "binop" and d["rv"]["op"] in ("Add", "AddWithOverflow", "AddUnchecked"):
-                    addends = [d["rv"]["a"], d["rv"]["b"]]
-                    break
-                if d["rv"]["k"] == "use":
-                    op = d["rv"]["op"]
-                else:
-                    break
-            cu = cur(st)
-            ok = False
-            from absval import Ref
-            more = []
-            for a in addends:
-                if a.get("k") in ("copy", "move") and not a["place"]["proj"]:
-                    d2 = _def_of(b, a["place"]["local"])
-                    if d2 is not None and d2["rv"]["k"] == "use":
-                        more.append(d2["rv"]["op"])     # a moved-from temporary: look at what it was copied from
-            for a in addends + more:
-                v_, loc_ = eng.eval_operand(st, frame, a)
-                if isinstance(v_, Ref) and v_.cell is not None:
-                    loc_ = (v_.cell, v_.path)
-                    v_ = eng.read_loc(st, loc_)
-                al = eng.lin_of(st, v_, loc_) if isinstance(v_, Int) else None
-                if al is not None and cu is not None and st.entails_eq(al - cu + LinForm.var(G["off0"])):
-                    ok = True
-            check("open known-size masters are stretched by exactly the number of bytes skipped", "try_recover: EBMLSize::Known construction", ok,
-                  None if addends else "the new size is not computed as old size + distance")
-            return
         # Ok(ProcessingTag { tag, size, tag_start, data_start }) built by read_tag itself: looked at here, before the Ok and Err paths meet
         if rv.get("agg") != "adt" or not strip_generics(rv["path"]).endswith("ProcessingTag") or frame.body.path != ITER + "::read_tag":
             return
@@ -1045,6 +1058,78 @@ def _tile_run(prog, entry_variant, entry="read_tag"):
               ts is not None and st.entails_eq(ts - LinForm.var(G["off0"])))
         check("data_start recorded for an element is the cursor right after its header", "read_tag: ProcessingTag construction",
               ds is not None and st.entails_eq(ds - LinForm.var(G["off0"]) - LinForm.var(G["idlen"]) - LinForm.var(G["szlen"])))
+
+    def on_store(st=None, frame=None, stmt=None, dloc=None, val=None, lin=None, extras=(), **kw):
+        # any write into the size of an open master (an element of tag_stack) during try_recover: new size = old size + bytes skipped
+        if entry != "try_recover" or dloc is None or dloc[0] != sc["c"] or dloc[1][:1] != (ix["tag_stack"],):
+            return
+        root = frame
+        while root.parent is not None:
+            root = root.parent
+        from absval import Ref
+        b_ = frame.body
+
+        def addends(op, depth=6):
+            """operands of the addition that produced `op` (through copies, `.0` of a checked add, Known{..} aggregates, <&usize as Add>::add)"""
+            for _ in range(depth):
+                if op.get("k") not in ("copy", "move"):
+                    return []
+                pl = op["place"]
+                fields = [e for e in pl["proj"] if e["k"] == "field"]
+                if pl["proj"] and not (len(pl["proj"]) == 1 and fields and fields[0]["i"] == 0):
+                    return []
+                d = _def_of(b_, pl["local"])
+                if d is None:
+                    for cb_, t_, c_ in b_.calls():
+                        if t_["dest"]["local"] == pl["local"] and not t_["dest"]["proj"] and c_ is not None and strip_generics(c_["path"]) in ("std::ops::Add::add",):
+                            return list(t_["args"])
+                    return []
+                r_ = d["rv"]
+                if r_["k"] == "binop" and r_["op"] in ("Add", "AddWithOverflow", "AddUnchecked"):
+                    return [r_["a"], r_["b"]]
+                if r_.get("agg") == "adt" and r_.get("variant") == "Known":
+                    op = r_["ops"][0]
+                    continue
+                if r_["k"] == "use":
+                    op = r_["op"]
+                    continue
+                return []
+            return []
+        rv = stmt["rv"]
+        src = rv.get("op") if rv["k"] == "use" else (rv["ops"][0] if rv.get("agg") == "adt" and rv.get("variant") == "Known" else None)
+        if src is None:
+            return
+        ads = addends(src)
+        if not ads and not (isinstance(val, Int) or (isinstance(val, Enum) and 0 in val.variants)):
+            return
+        cu = cur(st)
+        ok = False
+        more = []
+        for a_ in ads:
+            if a_.get("k") in ("copy", "move") and not a_["place"]["proj"]:
+                d2 = _def_of(b_, a_["place"]["local"])
+                if d2 is not None and d2["rv"]["k"] == "use":
+                    more.append(d2["rv"]["op"])     # a moved-from temporary: look at what it was copied from
+        for a_ in ads + more:
+            v_, loc_ = eng.eval_operand(st, frame, a_)
+            if isinstance(v_, Ref) and v_.cell is not None:
+                loc_ = (v_.cell, v_.path)
+                v_ = eng.read_loc(st, loc_)
+            al = eng.lin_of(st, v_, loc_) if isinstance(v_, Int) else None
+            cands = [al] if al is not None else []
+            if a_.get("k") in ("copy", "move") and a_["place"]["proj"]:
+                # a captured variable read through the closure environment: the variable itself
+                try:
+                    rl = eng.resolve(st, frame, a_["place"])
+                    if rl is not None and st.leaf(rl) is not None:
+                        cands.append(LinForm.var(rl))
+                except Exception:
+                    pass
+            for al in cands:
+                if cu is not None and st.entails_eq(al - cu + LinForm.var(G["off0"])):
+                    ok = True
+        check("open known-size masters are stretched by exactly the number of bytes skipped", "try_recover: write to the size of an open master", ok,
+              None if ads else "the new size is not computed as old size + distance")
 
     def on_index(call=None, arr_loc=None, index=None, index_lin=None, st=None, kind=None, **kw):
         if kind != "range" or arr_loc is None:
@@ -1068,6 +1153,7 @@ def _tile_run(prog, entry_variant, entry="read_tag"):
     eng.on("return", on_return)
     eng.on("aggregate", on_aggregate)
     eng.on("index", on_index)
+    eng.on("store", on_store)
     _forms, (pv, fv, cv) = it.inv_forms(ix)
     _absint.INVARIANT_VARS[:] = [pv, fv, cv]
     try:
